@@ -48,11 +48,11 @@ LAYOUTS3 = [
 ]
 
 
-def mk_case(files, root, tags):
-    """files: list of (relative path, text)"""
+def mk_case(files, root, tags, root_as=None):
+    """files: list of (relative path, text); root_as: the (possibly non-canonical) spelling of root handed to the loader"""
     fsx = "(" + " ".join("((%s) %s)" % (" ".join(q(c) for c in p.split("/")), q(t)) for p, t in files) + ")"
     case_sx = "(inc %s (%s))" % (fsx, " ".join(q(c) for c in root.split("/")))
-    return dict(sx=case_sx, impl=dict(root=root, files=[[p, t] for p, t in files]), tags=tags)
+    return dict(sx=case_sx, impl=dict(root=root_as or root, files=[[p, t] for p, t in files]), tags=tags)
 
 
 def dirs_of(paths):
@@ -96,8 +96,8 @@ def graph_case(layout, edges, idx, stream, rng, styled=False):
     return mk_case(files, layout[0], dict(stream=stream, files=n, edges=len(edges)))
 
 
-PRE = ["", "", " ", "  ", "   ", "    ", "\t", " \t"]
-SUF = ["", "", " ", "\t", "  \t ", "\r", " \r"]
+PRE = ["", "", " ", "  ", "   ", "    ", "\t", " \t", "\x0b", "\x0c "]
+SUF = ["", "", " ", "\t", "  \t ", "\r", " \r", "\x0c", " \x0b"]
 PAD = ["", "", " ", "\t", "  "]
 PLAIN = ["text", "x := 1 + 2", "A {1+1} and {foo/bar} B", "", "   ", "# Title", "use `{path/to/file.mec}` inline", "a ~~~ b", "``", "~~ not a fence"]
 
@@ -105,7 +105,7 @@ PLAIN = ["text", "x := 1 + 2", "A {1+1} and {foo/bar} B", "", "   ", "# Title", 
 def fence_block(rng, targets):
     m = rng.choice("`~")
     n = rng.randint(3, 6)
-    indent = " " * rng.choice([0, 0, 1, 3, 4])
+    indent = rng.choice(["", "", " ", "   ", "    ", "\t", "  \t"])
     info = rng.choice(["", "", "mech", " mech:ex", "x" + m * 3])
     out = [indent + m * n + info]
     for _ in range(rng.randint(0, 3)):
@@ -142,7 +142,8 @@ def varied_case(rng, stream, missing=False):
             files.append((p, rng.choice(["", "\n", " "]))); continue
         targets = [ref(p, layout[j], rng.choice([0, 0, 1, 2, 3]), dirs, rng) for j in range(n)]
         bogus = ["nope.mec", "sub/nope.mec", "nodir/x.mec", "nodir/../" + posixpath.basename(layout[0]),
-                 posixpath.basename(p) + "/../" + posixpath.basename(p), "./", ".mec", "a.mec/"]
+                 posixpath.basename(p) + "/../" + posixpath.basename(p), ".mec", "sub\\c.mec", posixpath.basename(p).upper()[:-4] + ".mec",
+                 posixpath.basename(p) + "/", "./"]
         lines = []
         def noise():
             r = rng.random()
@@ -163,13 +164,17 @@ def varied_case(rng, stream, missing=False):
                 for _ in range(rng.randint(0, 1)):
                     noise()
         if missing and rng.random() < 0.5:
-            lines.insert(rng.randint(0, len(lines)), rng.choice(PRE) + "{" + rng.choice(bogus[:5]) + "}" + rng.choice(SUF))
+            lines.insert(rng.randint(0, len(lines)), rng.choice(PRE) + "{" + rng.choice(bogus[:8]) + "}" + rng.choice(SUF))
         if rng.random() < 0.01:
             lines.append("{a} {%s}" % rng.choice(targets))            # advisory class (brace inside the target)
         nl = "\r\n" if rng.random() < 0.08 else "\n"
         text = nl.join(lines) + (nl if rng.random() < 0.6 else "")
         files.append((p, text))
-    return mk_case(files, layout[0], dict(stream=stream, files=n))
+    root_as = None
+    if rng.random() < 0.12:                               # the loader canonicalises the path it is given
+        d = rng.choice(dirs)
+        root_as = rng.choice(["./" + layout[0], (d + "/" if d else "./") + posixpath.relpath(layout[0], d or ".")])
+    return mk_case(files, layout[0], dict(stream=stream, files=n), root_as=root_as)
 
 
 def acyclic(n, edges):
@@ -245,7 +250,7 @@ def generate(tier, rng):
 def shrink(case):
     """drop one file, or one line of one file"""
     files = [tuple(f) for f in case["impl"]["files"]]
-    root = case["impl"]["root"]
+    root = posixpath.normpath(case["impl"]["root"])
     out = []
     for i, (p, t) in enumerate(files):
         if p != root:
